@@ -40,15 +40,20 @@ Filter(o, cs, j) == IF j > Len(cs) THEN <<>> ELSE (IF Kept(o, cs[j]) THEN <<cs[j
 IsDig(c) == c >= 48 /\ c <= 57
 RECURSIVE DigitsVal(_, _, _)
 DigitsVal(v, k, acc) == IF k <= Len(v) /\ IsDig(v[k]) THEN DigitsVal(v, k + 1, acc * 10 + (v[k] - 48)) ELSE acc
-\* exactly L<digits>: a literal that a rule folded into a longer string is new code, not original code
-IsMarker(t) == t.k = "str" /\ Len(t.v) >= 2 /\ t.v[1] = 76 /\ \A k \in 2..Len(t.v) : IsDig(t.v[k])
+\* a marker is exactly L<digits>s<digits> (line, unique slot): a literal that a rule folded into a longer string is new code
+RECURSIVE SkipDigits(_, _)
+SkipDigits(v, k) == IF k <= Len(v) /\ IsDig(v[k]) THEN SkipDigits(v, k + 1) ELSE k
+IsMarker(t) == /\ t.k = "str" /\ Len(t.v) >= 4 /\ t.v[1] = 76 /\ IsDig(t.v[2])
+               /\ LET k == SkipDigits(t.v, 2) IN k < Len(t.v) /\ t.v[k] = 115 /\ IsDig(t.v[k + 1]) /\ SkipDigits(t.v, k + 1) = Len(t.v) + 1
 JudgeMarkers(o) ==
   LET b == Lex(o.outb, TRUE) IN
   LET okrun == o.status = "ok" IN
   LET c == IF okrun /\ b.ok THEN Code(b) ELSE <<>> IN
   LET lines == LinesAcc(o.outb, c, 1, 1, 1, <<>>) IN
   LET ms == {j \in 1..Len(c) : IsMarker(c[j])} IN
-  LET off == {j \in ms : lines[j] # DigitsVal(c[j].v, 2, 0) + o.shift} IN
+  LET onLine(j) == lines[j] = DigitsVal(c[j].v, 2, 0) + o.shift IN
+  \* a rule may COPY an expression (the copy is new code): a marker is misplaced only if NO occurrence of it is on its line
+  LET off == {j \in ms : ~onLine(j) /\ ~\E k \in ms : c[k].v = c[j].v /\ onLine(k)} IN
   LET first == IF off = {} THEN 0 ELSE CHOOSE j \in off : \A k \in off : j <= k IN
   [id |-> o.id, kind |-> o.kind, status |-> o.status, lex_in |-> TRUE, lex_out |-> b.ok, identical |-> FALSE,
    code_equal |-> TRUE, comments_ok |-> TRUE, lines_ok |-> okrun /\ b.ok /\ off = {},
